@@ -171,6 +171,17 @@ def rule_inputs(model: Model, tier: str):
                         pools = [p[:3] for p in pools]
                     for kids in itertools.product(*pools):
                         out.append(((k, list(kids)), f"{k}<{','.join(combo)}>"))
+            # two children of one parameterised class with DIFFERENT parameters, plain and with one of them
+            # negated / inverted (rules that group children by class must also agree on the parameter)
+            for ck in kinds:
+                pairs = {"NthPower": ((2, 3),), "NthRoot": ((2, 3),), "Exponential": ((2, 10), (E, 2)),
+                         "Logarithm": ((2, 10), (E, 2))}.get(ck, ())
+                for (p1, p2) in pairs:
+                    a_, b_ = (ck, nm.var(), p1), (ck, nm.var(), p2)
+                    out.append(((k, [a_, b_]), f"{k}<{ck},{ck} different parameters>"))
+                    out.append(((k, [a_, ("Negation", b_)]), f"{k}<{ck},-{ck} different parameters>"))
+                    out.append(((k, [a_, ("Reciprocal", b_)]), f"{k}<{ck},1/{ck} different parameters>"))
+                    out.append(((k, [("Negation", a_), b_, nm.var()]), f"{k}<-{ck},{ck} different parameters>"))
             # arities 4 and 5: a deterministic sample of child-class combinations
             import random
             rng = random.Random(20260927)
